@@ -24,7 +24,7 @@ CHECKS = {
     ),
     "C03": dict(
         text="Runtime monitoring: verify_root outcomes on (trusted, offered) root pairs stratified by the rows of the rule's truth table "
-        "are compared with a reference root-update model (both directions: unsound accept and false reject). Also: forged neighbours re-using just-verified entries, the same pairs while standard output fails (soundness only), concurrent chaining of different roots.",
+        "are compared with a reference root-update model (both directions: unsound accept and false reject). Also: forged neighbours re-using just-verified entries, the same pairs while standard output fails (soundness only), concurrent chaining of different roots. Offered / trusted roots also carry extra members under every member name the library's own code mentions (learned at run time), with values naming the scenario's keys: only the refusing direction is judged for those.",
         technique="boundary recorder + reference root-chain model over stratified pairs + schedule / failing-stdout workloads",
         ref="4/C03",
     ),
@@ -37,7 +37,7 @@ CHECKS = {
     ),
     "C05": dict(
         text="Runtime monitoring: verify_delegation outcomes on multi-role trusted metadata and adversarial signer strategies are compared "
-        "with a reference delegation model; error class asserted for undelegated roles. Also: in-place histories of one trusted object, entries re-filed under another role's keys after an acceptance, stale well-formed entries under listed keys, failing standard output, concurrent verification of different roles.",
+        "with a reference delegation model; error class asserted for undelegated roles. Also: in-place histories of one trusted object, entries re-filed under another role's keys after an acceptance, stale well-formed entries under listed keys, failing standard output, concurrent verification of different roles. Documents with extra members under learned names, delegations to an empty key list, copies of good entries under abbreviated key labels, present-but-empty optional members.",
         technique="boundary recorder + reference delegation model over stratified cases + history / schedule workloads",
         ref="4/C05",
     ),
@@ -57,21 +57,21 @@ CHECKS = {
     "C08": dict(
         text="Runtime monitoring over file histories (write / load / sign in memory + write / sign_all_in_repodata / GnuPG-path signing): "
         "after each step file bytes equal the reference canonical bytes, loaded value equals the in-memory value, a fixed panel of "
-        "verification verdicts is unchanged, earlier entries are byte-identical and still count. Includes envelope-shaped values indexed by other spellings of a key, same-path overwrites, out-of-band replacement, a scripted interactive session.",
+        "verification verdicts is unchanged, earlier entries are byte-identical and still count. Includes envelope-shaped values indexed by other spellings of a key, same-path overwrites, out-of-band replacement, a scripted interactive session. Write / load among neighbour files (the name plus every suffix the library's code mentions and usual leftovers) holding stale material of an earlier version.",
         technique="recorded file-history checker with reference serializer and verdict panel",
         ref="4/C08",
     ),
     "C09": dict(
         text="Runtime monitoring of sign-then-verify: after every sign_signable the envelope is compared with the exact expected envelope "
         "(RFC 8032 reference signature over reference canonical bytes), idempotence, all signing orders, threshold boundary t=k / k+1, "
-        "value-changing and value-preserving edits; sign-side primitive probe. Threads signing different envelopes with different keys, then sequential signing with the same key objects.",
+        "value-changing and value-preserving edits; sign-side primitive probe. Threads signing different envelopes with different keys, then sequential signing with the same key objects. Copies of signers' entries under other labels of their own keys (also listed as authorized) never raise the signer count.",
         technique="state assertions after each operation against reference signer/serializer + primitive probe + schedule workload",
         ref="4/C09",
     ),
     "C10": dict(
         text="Runtime monitoring of OpenPGP-mode verification against an RFC 4880 digest reference over payload/header/key/signature "
         "corruptions (single-bit sweeps, boundary shift, S+L), plus real GnuPG 2.2 signatures made through the library's own GPG signing "
-        "path (GnuPG-backed securesystemslib stand-in) and then corrupted. Threads verifying different (large) payloads at once, then the main thread again, each judged by the reference digest of its own arguments.",
+        "path (GnuPG-backed securesystemslib stand-in) and then corrupted. Threads verifying different (large) payloads at once, then the main thread again, each judged by the reference digest of its own arguments. Real packet layouts with other version octets; signatures over the trailers other packet versions define; hex fields with white space a lenient decoder skips.",
         technique="reference-digest oracle + real GnuPG second signer + corruption sweeps + schedule workload",
         ref="4/C10",
     ),
@@ -92,7 +92,7 @@ CHECKS = {
     "C13": dict(
         text="Runtime monitoring of error families: every public validator/verifier called with every palette value in every argument "
         "position and with single/double path mutations of valid arguments; outcome must be a return or a documented error family; "
-        "predicates return bool; sys.monitoring step budget for termination; error-class mapping on single-cause cases from the models. Single-cause rejections are also offered while standard output fails: a rejection must stay a rejection.",
+        "predicates return bool; sys.monitoring step budget for termination; error-class mapping on single-cause cases from the models. Single-cause rejections are also offered while standard output fails: a rejection must stay a rejection. Every kind of non-counting entry the generators know, one at a time, in the place of the one missing signer (must be a signature error).",
         technique="boundary recorder (exception class + raise site) over palette/mutation sweeps + sys.monitoring step budget",
         ref="4/C13",
     ),
@@ -104,21 +104,21 @@ CHECKS = {
     ),
     "C15": dict(
         text="Runtime monitoring: leaf validators compared with ASCII regular-expression oracles on boundary-length strings over hostile "
-        "alphabets, non-strings, entry dictionaries over all key subsets, key lists; predicate/raiser agreement; one-spelling table. Siblings of a value right after it was accepted, repeat-after-reject, validators under threads.",
+        "alphabets, non-strings, entry dictionaries over all key subsets, key lists; predicate/raiser agreement; one-spelling table. Siblings of a value right after it was accepted, repeat-after-reject, validators under threads. Every learned member name singly as a further member of perfect entries, before and after unrelated activity that switches on each keyword option the library declares.",
         technique="regex oracle + predicate/raiser differential over systematic and random inputs + history / schedule workloads",
         ref="4/C15",
     ),
     "C16": dict(
         text="Runtime monitoring of the metadata builders: valid and corrupted argument tuples; returned metadata checked against the "
         "reference schema, the library checker, argument fidelity, default expiry window under three TZ values, and a builder-made "
-        "root chain verified by verify_root. Default times are bracketed by the clock within 2 s, also after rejected calls and a real pause, and under threads.",
+        "root chain verified by verify_root. Default times are bracketed by the clock within 2 s, also after rejected calls and a real pause, and under threads. A virtual clock (library-namespace rebinding of datetime / time) puts default times on chosen instants: whole second, 1 us before a second / day / year ends, leap day, 2^31 s.",
         technique="postcondition monitor on builder output (reference schema + checker + verifier) incl. TZ configurations + history / schedule workloads",
         ref="4/C16",
     ),
     "C17": dict(
         text="Runtime monitoring at the process boundary: each entry point (console script, python -m package, python -m cli module) is "
         "started as a real process on generated file pairs; exit status and contradiction-level output compared with the library's "
-        "in-process verdict; signing subcommands checked for exit status vs. actual effect. Sign-artifacts scenarios include re-signing after a hot-fix, planted own-key entries and key values with leading / trailing zeros; verify-metadata with a closed stdout pipe.",
+        "in-process verdict; signing subcommands checked for exit status vs. actual effect. Sign-artifacts scenarios include re-signing after a hot-fix, planted own-key entries and key values with leading / trailing zeros; verify-metadata with a closed stdout pipe. One file in both positions (same path, ./, //, symlink, hard link, copy); a non-string declared type next to a role named like it.",
         technique="process-boundary monitor (exit status, stdout) vs in-process verdict, all entry points",
         ref="4/C17",
     ),
@@ -127,13 +127,13 @@ CHECKS = {
         text="Fault enumeration with source-free failpoints: for each document a census of executed library line events, then one run per "
         "line / call / callee-entry event before the first write-mode open of the target, and per serialisation-or-signing call between "
         "open and first write, with a fault (exception class rotating over 16 classes incl. KeyError and KeyboardInterrupt) injected there; after each failed run the target file must be byte-identical; plus natural failures and an ordering invariant "
-        "from the audit hook / file proxy on successful runs. Exhaustive per document over its executed lines.",
+        "from the audit hook / file proxy on successful runs. Exhaustive per document over its executed lines. Key files of several lines (valid key then anything else): a run that reports failure has left the file as it was.",
         technique="sys.monitoring failpoint enumeration + audit-hook / file-proxy ordering monitor",
         ref="4/C18",
     ),
     "C19": dict(
         text="Runtime monitoring: library key derivation, hex filing and signatures compared with an independent RFC 8032 implementation "
-        "per seed; conversion-graph random walks; equivalence laws; key files; malformed encodings. Key rotation histories (other route, other spelling of the path, relative name after chdir), repeat-after-reject, the command line's hex key files, conversions under threads.",
+        "per seed; conversion-graph random walks; equivalence laws; key files; malformed encodings. Key rotation histories (other route, other spelling of the path, relative name after chdir), repeat-after-reject, the command line's hex key files, conversions under threads. Malformed encodings again after every kind of unrelated activity (early-ending command-line runs, options switched on).",
         technique="reference RFC 8032 oracle + round-trip / law monitors + history / schedule workloads",
         ref="4/C19",
     ),
